@@ -22,3 +22,4 @@ pub(crate) mod testutil {
         }
     }
 }
+pub mod writer;
